@@ -170,6 +170,28 @@ table task time tran tranif0 tranif1 tri tri0 tri1 triand trior trireg unsigned 
 while wire wor xnor xor'''.split())
 
 
+@__import__('fam.designs', fromlist=['design']).design
+def keyword_names(part=0, parts=4):
+    """one wire per Verilog-2001 keyword (Inputs, a Register, an Output and internal wires named like keywords)"""
+    import pyrtl
+    kws = sorted(V2001_KEYWORDS)[part::parts]
+    acc = None
+    for i, k in enumerate(kws):
+        if i % 7 == 3:
+            w = pyrtl.WireVector(2, k)
+            w <<= acc
+            acc = w
+        elif i % 7 == 5:
+            r = pyrtl.Register(2, k)
+            r.next <<= acc
+            acc = r ^ acc
+        else:
+            a = pyrtl.Input(2, k)
+            acc = a if acc is None else (acc + a)[:2]
+    o = pyrtl.Output(2, 'o_' + kws[0])
+    o <<= acc
+
+
 def illegal_identifiers(names):
     """names that are not Verilog-2001 simple identifiers (ASCII letters, digits, _ and $, not
     starting with a digit or $, not a keyword) - judged independently of the exporter's sanitiser"""
